@@ -24,6 +24,7 @@ def configs(tier):
         add(spec('localp', 'localp', 2, 1, 2, order=1), 'Sv,L,Sv'); add(spec('localp', 'localp', 2, 2, 2, order=1), 'Sv,L', 0); add(spec('localp', 'semi-localp', 2, 2, 1, order=2), 'Sc,L,Sv,M', -1)
         add(spec('localp', 'localp-zero', 2, 1, 2, order=3, limits=2), 'Sv,L,C'); add(spec('localp', 'localp-boundary', 1, 1, 2, order=1), 'Sf,L,Sd,L'); add(spec('localp', 'localp', 2, 1, 1, order=0), 'Ss,L,Sp,L', max_paths=4)
         add(spec('localp', 'localp', 2, 1, 1, order=1), 'Sc,C,Sv,L,L')
+        add(spec('localp', 'localp', 1, 2, 2, order=1), 'Sv', -1, max_paths=48); add(spec('localp', 'localp-zero', 1, 3, 1, order=2), 'Sv', -1, max_paths=32)   # several outputs, all active: the per-output max of the classic criterion
         add(spec('wavelet', 'wavelet', 1, 1, 1, order=1), 'Sc,L,C'); add(spec('wavelet', 'wavelet', 2, 1, 1, order=1), 'Sf,L')
         add(spec('sequence', 'rleja', 2, 1, 2), 'Sg,L,A,L', 0); add(spec('sequence', 'leja', 2, 2, 1), 'A,C,U,L', 0); add(spec('global', 'clenshaw-curtis', 2, 1, 1), 'A,L,U,M,L', 0)
         add(spec('global', 'leja', 2, 1, 2), 'Sg,L,C', 0); add(spec('fourier', 'fourier', 2, 1, 1), 'A,L,U', 0)
